@@ -34,9 +34,10 @@ def deployment(inst, dep, algo="dsa"):
     return dcop, cg, algo_def, Distribution(mapping), names, comps
 
 
-def one_run(hid, inst, dep, r):
+def one_run(hid, inst, dep, sseed):
+    r = random.Random(sseed)
     dcop, cg, algo_def, dist, names, comps = deployment(inst, dep)
-    w = OrchWorld(dcop, algo_def, cg, dist, infinity=10000, replication="dist_ucs_hostingcosts", seed=r.randrange(10 ** 6))
+    w = OrchWorld(dcop, algo_def, cg, dist, infinity=10000, replication="dist_ucs_hostingcosts", seed=sseed)
     w.boot_all(order=r)
     stuck = w.deploy()
     if stuck:
@@ -55,7 +56,7 @@ def one_run(hid, inst, dep, r):
             "owner": {c: dist.agent_for(c) for c in comps}, "fp": {c: int(fp[c]) for c in comps}, "k": dep["k"],
             "done": done, "hosts": hosts, "held": held, "dirReps": dirreps,
             "accepts": [{"a": x["a"], "c": x["c"], "held": x["held"]} for x in w.accepts], "exc": exc}, \
-        {"shape": inst["shape"], "dep": dep, "stuck": stuck, "steps": dict(w.phase_steps), "inst": inst, "fp_float": fp}
+        {"shape": inst["shape"], "dep": dep, "stuck": stuck, "steps": dict(w.phase_steps), "inst": inst, "fp_float": fp, "sched_seed": sseed}
 
 
 def run(tier):
@@ -74,7 +75,7 @@ def run(tier):
             v.add_tlc(dres, "deployments (Gen_C25, %d agents, %d computations)" % (nag, nc))
             for dep in deps:
                 for rep in range(2 if quick else 6):       # several interleavings of the agents' loop iterations
-                    rec, m = one_run(len(recs), inst, dep, r)
+                    rec, m = one_run(len(recs), inst, dep, r.randrange(10 ** 6))
                     meta[rec["id"]] = m
                     recs.append(rec)
     verdicts, jres = judge("Judge_C25", recs, chunk=400)
@@ -88,7 +89,7 @@ def run(tier):
         for clause in verdicts[rec["id"]]:
             v.violation({"clause": clause, "k": rec["k"]},
                         "%s (shape %s, %d agents, k=%d): hosts %s, done %s, %s" % (clause, m["shape"], len(rec["agents"]), rec["k"], rec["hosts"], rec["done"], rec["exc"][:1]),
-                        {"inst": m["inst"], "dep": m["dep"], "outcome": rec})
+                        {"inst": m["inst"], "dep": m["dep"], "sched_seed": m["sched_seed"], "outcome": rec})
         if not verdicts[rec["id"]] and len(rec["accepts"]) >= 4:
             v.sample({"shape": m["shape"], "caps": rec["cap"], "k": rec["k"], "footprints": rec["fp"], "hosts": rec["hosts"], "accepts": len(rec["accepts"])}, cap=3)
     v.cov["exhaustive"] = False
@@ -103,6 +104,6 @@ def run(tier):
 
 def replay(path):
     d = json.load(open(path))
-    rec, m = one_run(0, d["replay"]["inst"], d["replay"]["dep"], random.Random(1))
+    rec, m = one_run(0, d["replay"]["inst"], d["replay"]["dep"], d["replay"]["sched_seed"])
     print(json.dumps(rec))
     return 1 if rec["exc"] or len(rec["done"]) != len(rec["agents"]) else 0
